@@ -7,7 +7,9 @@
 const { mk } = require('../lib/static_driver')
 const X = require('../oracles/exec')
 
-const C03_RULES = new Set(['hook-operands', 'hook-arg-not-simple', 'hook-arg-spread', 'spread-not-materialised'])
+// (kept-ident-before-effect: an identifier operand handed to the hook is read AFTER a later operand ran code that may
+// reassign it - the hook is told about a value the original operation never saw)
+const C03_RULES = new Set(['hook-operands', 'hook-arg-not-simple', 'hook-arg-spread', 'spread-not-materialised', 'kept-ident-before-effect'])
 
 function sameValue (w, a, b) {
   if (a === b || (a !== a && b !== b)) return true // eslint-disable-line no-self-compare
